@@ -77,6 +77,9 @@ func (e *Engine) runBlock(st *State, fr *Frame, b *ssa.BasicBlock, pred *ssa.Bas
 			st.bodyEntered = true
 		}
 	}
+	if e.loopsSeen != nil && isLoopHeader(b) {
+		e.loopsSeen[fmt.Sprintf("%s/%d", fr.fn.String(), b.Index)] = true
+	}
 	// loop bound (per frame depth + block): unwinding
 	key := fmt.Sprintf("%d/%d", fr.id, b.Index)
 	st.visits[key]++
